@@ -36,6 +36,13 @@ def exc_name(e):
     return "exc Other:" + type(e).__name__
 
 
+def exc_text(e):
+    """the exception's own message, for reports only (never compared with the model)"""
+    if isinstance(e, BaseExceptionGroup):
+        return "; ".join(sorted({exc_text(x) for x in e.exceptions}))[:300]
+    return ("%s: %s" % (type(e).__name__, e))[:200]
+
+
 def make_settings(c):
     s = nexsettings.default()
     s["nex.version"] = c["version"]
@@ -50,6 +57,50 @@ def make_settings(c):
     elif t == "v1": s["prudp.version"] = 1; s["prudp.transport"] = s.TRANSPORT_UDP
     else: s["prudp.transport"] = s.TRANSPORT_TCP
     return s
+
+
+# ---------------------------------------------------------------------------------------------------------------
+# the library's own random draws.  A login makes several: every PRUDP endpoint object (the client's connection to the
+# authentication server, the client's connection to the secure server, and the two server-side peers) draws a 32-bit
+# connection check, an 8-bit session id and, on PRUDP v1, a 16-bit initial unreliable sequence id; the Kerberos side
+# draws a 16-byte ticket key (ticket version 1).  The property quantifies over all of them ("logging in ... yields"),
+# so their boundary values are inputs like any other.  `draws` = {"check": [...], "session": [...], "unrel": [...],
+# "token": "00"|"ff"}: the k-th draw of a kind gets values[k % len(values)] (one value = every endpoint draws it; two
+# values = the endpoints alternate, so client and server side differ); a kind that is absent stays random.
+DRAW_BOUNDS = {"check": 0xFFFFFFFF, "session": 0xFF, "unrel": 0xFFFF}
+
+
+class DrawPins:
+    """what sim.prudp_rand.force expects ({upper bound: value}), with one value per successive draw"""
+    def __init__(self, draws):
+        self.values = {DRAW_BOUNDS[k]: list(v) for k, v in draws.items() if k in DRAW_BOUNDS and v}
+        self.count = {b: 0 for b in self.values}
+    def __bool__(self): return bool(self.values)
+    def __contains__(self, bound): return bound in self.values
+    def __getitem__(self, bound):
+        vs = self.values[bound]
+        v = vs[self.count[bound] % len(vs)]
+        self.count[bound] += 1
+        return v
+
+
+class _ConstSecrets:
+    def __init__(self, byte): self.byte = byte
+    def token_bytes(self, n): return bytes([self.byte]) * n
+
+
+def apply_draws(sim, draws):
+    if not draws: return
+    pins = DrawPins(draws)
+    if pins: sim.prudp_rand.force = pins
+    if draws.get("token") is not None:
+        sim._patch(kerberos, "secrets", _ConstSecrets(int(draws["token"], 16)))      # undone by Sim.__exit__
+
+
+def draws_made(sim):
+    """the values the library actually drew, in order: [kind, value]"""
+    names = {b: k for k, b in DRAW_BOUNDS.items()}
+    return [[names.get(b, str(b)), v] for a, b, v in sim.prudp_rand.log]
 
 
 class Probe:
@@ -195,6 +246,7 @@ def run_case(c):
     obs = {"calls": [], "extra": [], "attempts": [], "accepts": [], "handler_pids": [], "client_pid": None, "probe": None, "error": None, "keys": []}
     with Sim(c.get("seed", 0)) as sim:
         sim.install_factories()
+        apply_draws(sim, c.get("draws"))
         s = make_settings(c)
         if c.get("loss"):
             seen = set()
@@ -263,11 +315,13 @@ def run_case(c):
         except BaseException as e:
             if isinstance(e, (KeyboardInterrupt, SystemExit)): raise
             obs["error"] = exc_name(e)
+            obs["error_text"] = exc_text(e)
         finally:
             backend.rmc.connect = orig_connect
             kerberos.ClientTicket.decrypt = classmethod(orig_decrypt)
             for cls, orig in saved: cls.serve = orig
         obs["vtime"] = sim.now()
+        if c.get("draws"): obs["draws_made"] = draws_made(sim)
     return obs
 
 
@@ -315,6 +369,7 @@ def run_session(sess):
     cases = [step_case(sess, k) for k in range(n)]
     with Sim(sess.get("seed", 0)) as sim:
         sim.install_factories()
+        apply_draws(sim, sess.get("draws"))
         s = make_settings(cases[0])                  # the ONE Settings object of the session
         if sess.get("loss"):
             seen = set()
@@ -416,6 +471,7 @@ def run_session(sess):
                             await gate()
             except Exception as e:            # a failed login must leave the client usable: go on with the next step
                 o["error"] = exc_name(e)
+                o["error_text"] = exc_text(e)
             finally:
                 _STEP.set(None)
 
@@ -459,4 +515,5 @@ def run_session(sess):
             kerberos.ClientTicket.decrypt = classmethod(orig_decrypt)
             for cls, orig in saved: cls.serve = orig
         out["vtime"] = sim.now()
+        if sess.get("draws"): out["draws_made"] = draws_made(sim)
     return out
